@@ -187,6 +187,8 @@ func main() {
 		run.FloorCounter("create_races_one_winner", int64(batches*scen))
 		run.FloorCounter("stale_deletes_refused", int64(batches*scen))
 		run.FloorCounter("current_tag_deletes_accepted", int64(batches*scen))
+		run.FloorCounter("duels_won_by_update", 5)
+		run.FloorCounter("duels_won_by_delete", 5)
 		run.FloorCounter("reads_304_verified", 100)
 		run.FloorCounter("reads_200_verified", 100)
 		run.FloorCounter("writes_refused_verified", 100)
